@@ -562,21 +562,36 @@ func (g *gram) route(ind int, idx int, channel string, matchers []string) {
 	if g.opt() {
 		g.line(in, "max_headers", g.size())
 	}
-	switch r.Intn(6) {
-	case 0:
-		g.line(in, "publish", vlib.Pick(r, []string{"on", "off"}))
-	case 1:
-		g.line(in, "publish {")
-		for _, k := range []string{"enabled", "direct", "managed"} {
-			if g.opt() {
-				g.line(in+1, k, g.onoff())
+	publishForm := func(k int) {
+		switch k {
+		case 0:
+			g.line(in, "publish", vlib.Pick(r, []string{"on", "off"}))
+		case 1:
+			g.line(in, "publish {")
+			for _, k := range []string{"enabled", "direct", "managed"} {
+				if g.opt() {
+					g.line(in+1, k, g.onoff())
+				}
 			}
-		}
-		g.line(in, "}")
-	case 2:
-		g.line(in, "publish.direct", g.onoff())
-		if g.opt() {
+			g.line(in, "}")
+		case 2:
+			g.line(in, "publish.direct", g.onoff())
+			if g.opt() {
+				g.line(in, "publish.managed", g.onoff())
+			}
+		case 3:
 			g.line(in, "publish.managed", g.onoff())
+		}
+	}
+	if k := r.Intn(7); k < 4 {
+		publishForm(k)
+		if r.Chance(0.25) {
+			// two forms of the same directive in one route, in either order: the parser
+			// refuses most combinations; whatever it accepts must round-trip
+			k2 := r.Intn(4)
+			if k2 != k {
+				publishForm(k2)
+			}
 		}
 	}
 	deliver := channel == "outbound" || (inbound && g.opt())
